@@ -16,6 +16,7 @@
 """
 WMS service handler
 """
+import re
 from functools import partial
 from html import escape
 from itertools import chain
@@ -45,6 +46,9 @@ from mapproxy.service import template_helper
 from mapproxy.layer import DefaultMapExtent, MapExtent
 
 get_template = template_loader(__package__, 'templates', namespace=template_helper.__dict__)
+
+
+_mime_type_re = re.compile(r'^[A-Za-z0-9.+-]+/[A-Za-z0-9.+-]+(\s*;\s*[A-Za-z0-9.+-]+=[A-Za-z0-9.+-]+)*\Z')
 
 
 class PERMIT_ALL_LAYERS(object):
@@ -243,6 +247,9 @@ class WMSServer(Server):
             mimetype = request.params.info_format
 
         if not infos:
+            if mimetype and not _mime_type_re.match(mimetype):
+                # never send unvalidated request data as a response header
+                mimetype = 'text/plain'
             return Response('', mimetype=mimetype)
 
         if self.fi_transformers:
